@@ -254,6 +254,15 @@ func (s *Swarm) merge(buf []byte) (mesh.GossipData, error) {
 		return nil, err
 	}
 
+	// Remember which of the incoming subscriptions are currently active. The peers are reference
+	// counted on the transitions of the replicated entries (inactive -> active and back) rather
+	// than on the shape of the delta: an entry which merely got a newer timestamp must not be
+	// counted twice and a tombstone of a subscription we have never seen must not be un-counted.
+	active := make(map[string]bool)
+	other.Subscriptions(func(ev *event.Subscription, _ event.Value) {
+		active[ev.Key()] = s.state.Has(ev)
+	})
+
 	// Merge and get the delta
 	delta := s.state.Merge(other)
 	other.Subscriptions(func(ev *event.Subscription, v event.Value) {
@@ -264,14 +273,15 @@ func (s *Swarm) merge(buf []byte) (mesh.GossipData, error) {
 		// Find the active peer for this subscription event
 		key := ev.Key()
 		peer := s.findPeer(mesh.PeerName(ev.Peer))
+		was, is := active[key], s.state.Has(ev)
 
 		// If the subscription is added, notify (TODO: use channels)
-		if v.IsAdded() && peer.onSubscribe(key, ev.Ssid) && peer.IsActive() {
+		if !was && is && peer.onSubscribe(key, ev.Ssid) && peer.IsActive() {
 			s.OnSubscribe(peer, ev)
 		}
 
 		// If the subscription is removed, notify (TODO: use channels)
-		if v.IsRemoved() && peer.onUnsubscribe(key, ev.Ssid) && peer.IsActive() {
+		if was && !is && peer.onUnsubscribe(key, ev.Ssid) && peer.IsActive() {
 			s.OnUnsubscribe(peer, ev)
 		}
 	})
